@@ -3313,7 +3313,17 @@ void ScriptThread::ScriptExecuteInternal(const VarListView& data)
     Director.m_CurrentThread = this;
 
     Stop();
-    m_ScriptVM->Execute(data);
+    try
+    {
+        m_ScriptVM->Execute(data);
+    }
+    catch (...)
+    {
+        // the thread was interrupted: the scheduler must not stay blocked on it
+        Director.m_CurrentThread = currentThread;
+        Director.m_PreviousThread = previousThread;
+        throw;
+    }
 
     // restore the previous values
     Director.m_CurrentThread = currentThread;
